@@ -439,13 +439,24 @@ def _main(prop, pid_, tier, base_seed, runs, wall, workers, root, t0, args):
         prop.setup(os.path.join(root, "shrink"))
         os.makedirs(os.path.join(root, "shrink"), exist_ok=True)
         for key in new_keys[:6]:
-            # prefer the shortest recorded instance
-            v = min(by_key[key], key=lambda v: len(v["plan_choices"]) + len(v["sched_choices"]))
+            # prefer the shortest recorded instance; an instance may fail to reproduce from its own record when the
+            # tree under test keeps state across runs (module-level cache, shared mutable default): try a few
+            cands = sorted(by_key[key], key=lambda v: len(v["plan_choices"]) + len(v["sched_choices"]))
+            cands = cands[:3] + [c for c in sorted(by_key[key], key=lambda v: v["idx"])[:2] if c not in cands[:3]]
+            cur = v = None
+            err = None
+            for v in cands:
+                try:
+                    cur = shrink(prop, os.path.join(root, "shrink"), v)
+                except HarnessError as e:
+                    err = "while shrinking %s: %s" % (key, e)
+                    cur = None
+                if cur is not None:
+                    break
+            if cur is None:
+                harness.append(err or "violation %s (seed indexes %s) did not reproduce from its own record (state kept across runs?)" % (key, [c["idx"] for c in cands]))
+                continue
             try:
-                cur = shrink(prop, os.path.join(root, "shrink"), v)
-                if cur is None:
-                    harness.append("violation %s (seed index %d) did not reproduce from its own record" % (key, v["idx"]))
-                    continue
                 path, rep = write_replay(prop, os.path.join(root, "shrink"), pid_, v, cur, tier, base_seed)
             except HarnessError as e:
                 harness.append("while shrinking %s: %s" % (key, e))
